@@ -25,6 +25,23 @@ Route: comment-stripped C text -> tokens -> recursive-descent parser -> a small 
    `void` only as the target of a byte pointer.  Any other integer type (uint32_t, unsigned, long, a
    narrowing cast, ...) is refused.  Mixed `int`/`size_t` operands follow C: the `int` is converted
    (`castSizeT`, i.e. mod 2^64).  `<f>_range` states the declared ranges of the scalar parameters.
+ * BLOCK IDENTITY: the container records carry ghost ids of the allocator blocks they live in (`id_`, `<array>_id`);
+   an allocation takes the next id from the supply `nid` (a parameter and a result of every function that
+   allocates), `mem_free(x)` consumes the id of `x` (functions that release return the list `dead` of the ids they
+   released).  Releasing a possibly-NULL pointer, releasing a block twice, and touching an object or array whose
+   block was released earlier in the same call are faults.  (The hand-written models count blocks only; the
+   agreement theorems say which ids the resulting object owns and which were released.)
+ * `*out = obj` for an object pointer is an ALIAS: the result holds the object as it is when the function returns.
+ * An uninitialised local that may be read before it is assigned is the parameter `<f>_<x>_uninit` (an arbitrary
+   value); one that is assigned first on every path starts as 0 (never observed).  `u`-suffixed literals do not
+   adapt to `int` operands (refused), `l`-suffixed ones are refused.
+ * `memmove`/`memcpy(dst, src, n)` on arrays (`a`, `&a[i]`) are `Buf.memmove`/`Buf.memcpy`; the byte count must be a
+   multiple of the slot width 8, the ranges must lie inside the blocks, and `memcpy` inside one block needs
+   disjoint ranges.
+ * An `if` with a `return` inside of which both branches can fall through does not duplicate what follows: that part
+   becomes the definition `<f>_k<n>`.  One generated module per C file (`Generated/Funcs<Name>.lean`), on top of the
+   hand-written `Base/GenPrelude.lean`; a function may call translated functions of an earlier file (`cc_stack.c` ->
+   `cc_array.c`) and embeds the object a pointer field owns (`stack->v`).
  * Statements become a chain of `let`s; an `if` whose branches do not return is a joined `let`, an `if`
    with a `return` continues both ways; file-local helper functions are translated as `@[simp]` definitions.
 
@@ -45,7 +62,10 @@ lists; struct layout and `sizeof` values other than 8 for pointers and 64-bit in
 product of `calloc(n, size)` (the allocator's business); aliasing between different pointers; reads of
 uninitialised locals (they read as 0); `(size_t) <float>` outside the range of size_t (undefined in C,
 saturating here).
-NOT TRANSLATED: `src/memory/cc_dynamic_pool.c` (its `PageInfo` headers live inside raw allocator blocks and are
+NOT TRANSLATED: `src/cc_queue.c` / `src/cc_deque.c` (mask arithmetic `&`, not yet in the expression subset);
+in `cc_array.c` / `cc_stack.c` everything that takes a callback, builds a derived container or iterates
+(`destroy_cb`, `remove_all_free`, `subarray`, the copies, the filters, `contains_value`, `sort`, `map`, `reduce`,
+iterators); `src/memory/cc_dynamic_pool.c` (its `PageInfo` headers live inside raw allocator blocks and are
 reached by casts such as `(PageInfo*) pool->page` and `new_page + sizeof(PageInfo)`; `destroy`, `reset` and
 `used_bytes` walk the `previous` chain through them — this needs a typed heap of header+payload blocks and an
 abstraction relation to the model's page list instead of a conversion function); `cc_pqueue_destroy_cb`,
@@ -59,16 +79,28 @@ import gen_guards as gg
 from gen_guards import GuardError as TErr
 
 TABLE = [
-    dict(file="src/cc_ring_buffer.c", struct="ring_buffer", arrays=["buf"], memory=None,
+    dict(file="src/cc_ring_buffer.c", struct="ring_buffer", arrays=["buf"], memory=None, out="FuncsRbuf",
          funcs=["cc_rbuf_conf_init", "cc_rbuf_conf_new", "cc_rbuf_new", "cc_rbuf_destroy",
                 "cc_rbuf_is_empty", "cc_rbuf_size", "cc_rbuf_enqueue", "cc_rbuf_dequeue", "cc_rbuf_peek"]),
-    dict(file="src/memory/cc_static_pool.c", struct="cc_static_pool_s", arrays=[], memory="bytes",
+    dict(file="src/memory/cc_static_pool.c", struct="cc_static_pool_s", arrays=[], memory="bytes", out="FuncsSpool",
          funcs=["cc_static_pool_new", "cc_static_pool_reset", "cc_static_pool_malloc", "cc_static_pool_calloc",
                 "cc_static_pool_free", "cc_static_pool_used_bytes", "cc_static_pool_free_bytes"]),
     # elem=True: `void *` is an element handle (a Nat), `void **` an array of them / an out-parameter
-    dict(file="src/cc_pqueue.c", struct="cc_pqueue_s", arrays=["buffer"], memory=None, elem=True,
+    dict(file="src/cc_pqueue.c", struct="cc_pqueue_s", arrays=["buffer"], memory=None, elem=True, out="FuncsPQueue",
          funcs=["cc_pqueue_conf_init", "cc_pqueue_new_conf", "cc_pqueue_new", "cc_pqueue_destroy",
                 "cc_pqueue_push", "cc_pqueue_top", "cc_pqueue_pop"]),
+    # out=...: the generated module (Generated/<out>.lean); the default is Funcs
+    dict(file="src/cc_array.c", struct="cc_array_s", arrays=["buffer"], memory=None, elem=True, out="FuncsArray",
+         funcs=["cc_array_conf_init", "cc_array_new_conf", "cc_array_new", "cc_array_destroy",
+                "cc_array_add", "cc_array_add_at", "cc_array_replace_at", "cc_array_swap_at",
+                "cc_array_remove_at", "cc_array_remove_last", "cc_array_remove_all",
+                "cc_array_get_at", "cc_array_get_last", "cc_array_size", "cc_array_capacity",
+                "cc_array_trim_capacity", "cc_array_reverse", "cc_array_index_of", "cc_array_contains",
+                "cc_array_remove"]),
+    dict(file="src/cc_stack.c", struct="cc_stack_s", arrays=[], memory=None, elem=True, out="FuncsStack",
+         imports=["FuncsArray"],
+         funcs=["cc_stack_conf_init", "cc_stack_new_conf", "cc_stack_new", "cc_stack_destroy",
+                "cc_stack_push", "cc_stack_peek", "cc_stack_pop", "cc_stack_size"]),
 ]
 
 NAT64 = {"size_t", "uint64_t", "uintptr_t"}
@@ -185,15 +217,27 @@ class Parser:
         if t == "for":
             self.eat()
             self.eat("(")
-            init = self.statement()           # a declaration or an expression statement, eats the `;`
+            if self.peek() in self.types:
+                inits = [self.statement()]    # a declaration, eats the `;`
+            else:
+                inits = []
+                while self.peek() != ";":
+                    inits.append(("expr", self.assign()))
+                    if self.peek() == ",":
+                        self.eat()
+                self.eat(";")
             c = ("boollit", "true") if self.peek() == ";" else self.expr()
             self.eat(";")
-            step = None if self.peek() == ")" else self.expr()
+            steps = []
+            while self.peek() != ")":
+                steps.append(("expr", self.assign()))
+                if self.peek() == ",":
+                    self.eat()
             self.eat(")")
             body = self.statement()
-            if step is not None and has_jump(body, ("continue",)):
+            if steps and has_jump(body, ("continue",)):
                 raise TErr("`continue` inside a `for` loop with a step expression")
-            return ("block", [init, ("while", c, ("block", [body] + ([("expr", step)] if step else [])))])
+            return ("block", inits + [("while", c, ("block", [body] + steps))])
         if t in ("break", "continue"):
             self.eat()
             self.eat(";")
@@ -339,7 +383,17 @@ class Parser:
             self.eat(")")
             return e
         if re.match(r"\d", t):
-            return ("num", int(re.sub(r"[uUlL]+$", "", t), 0))
+            body = re.sub(r"[uUlL]+$", "", t)
+            suf = t[len(body):].lower()
+            if "l" in suf and "u" not in suf:
+                raise TErr(f"literal `{t}` of type long")
+            if re.match(r"^0[0-7]+$", body):
+                val = int(body, 8)
+            elif re.match(r"^0\d+$", body):
+                raise TErr(f"malformed octal literal `{t}`")
+            else:
+                val = int(body, 0)
+            return ("num", val, "u") if "u" in suf else ("num", val)
         if t == "NULL":
             return ("null",)
         if t in ("true", "false"):
@@ -420,8 +474,10 @@ def lean_ty(t):
             return "Option Triple"
         if t[0] == "cmp":
             return "Option (Nat → Nat → Int)"
+        if t[0] == "opt":
+            return "Option Unit" if t[1] == "void" else f"Option {atomty(lean_ty(t[1]))}"
     return {"nat": "Nat", "int": "Int", "bool": "Bool", "ptr": "Ptr", "stat": "Nat", "arr": "List Nat",
-            "mem": "Mem", "flag": "Bool", "float": "Float32", "fuelt": "Nat"}[t]
+            "mem": "Mem", "flag": "Bool", "float": "Float32", "fuelt": "Nat", "idt": "Nat", "deadt": "List Nat"}[t]
 
 
 def atomty(s):
@@ -436,7 +492,13 @@ def zero_of(t):
     return {"nat": "0", "int": "0", "bool": "false", "ptr": "none", "stat": "0", "arr": "[]", "float": "(0 : Float32)"}[t]
 
 
+# what earlier entries of TABLE translated: later files may call those functions and embed those records
+REG = {"structs": {}, "sigs": {}}
+
+
 class Sig:
+    external = False
+
     def __init__(self, name, ret, params, body):
         self.name, self.ret, self.params, self.body = name, ret, params, body
         self.lean = name        # file-local helpers get the struct tag as a prefix (one_file)
@@ -450,6 +512,8 @@ class Sig:
         self.fuel = False       # has a loop / is recursive / calls such a function: takes `fuel`
         self.recursive = False
         self.out_nn = []        # out-parameters the function tests for NULL: extra Bool parameters
+        self.nid = False        # allocates: takes and returns the supply of block ids
+        self.frees = False      # releases blocks: returns the ids it released
 
     def components(self):
         c = []
@@ -461,6 +525,10 @@ class Sig:
             c.append(("state:" + n, lean_ty(dict(self.params)[n])))
         if self.mem:
             c.append(("mem", "Mem"))
+        if self.nid:
+            c.append(("nid", "Nat"))
+        if self.frees:
+            c.append(("dead", "List Nat"))
         if self.faults:
             c.append(("fault", "Bool"))
         return c
@@ -542,6 +610,72 @@ def has_return(s):
     return False
 
 
+def always_returns(s):
+    """every path through the statement ends in a `return`"""
+    if s is None:
+        return False
+    if s[0] == "ret":
+        return True
+    if s[0] == "block":
+        return any(always_returns(x) for x in s[1])
+    if s[0] == "if":
+        return always_returns(s[2]) and always_returns(s[3])
+    return False
+
+
+def reads_var(e, x):
+    """the expression reads variable x (an assignment `x = ..` does not read its left side)"""
+    if not isinstance(e, tuple) or not e:
+        return False
+    k = e[0]
+    if k == "id":
+        return e[1] == x
+    if k == "assign":
+        lhs_reads = False if (e[2] == ("id", x) and e[1] == "=") else reads_var(e[2], x)
+        return lhs_reads or reads_var(e[3], x)
+    return any(reads_var(c, x) for c in e[1:] if isinstance(c, (tuple, list))) or \
+        any(reads_var(c, x) for l in e[1:] if isinstance(l, list) for c in l)
+
+
+def first_use(stmts, x):
+    """'A' the variable is assigned before it is read on every path through stmts, 'R' it may be read first,
+    'U' neither happens for sure"""
+    for s in stmts:
+        k = s[0]
+        if k == "block":
+            r = first_use(s[1], x)
+        elif k in ("expr", "ret", "decl"):
+            e = s[1] if k != "decl" else s[3]
+            if e is None:
+                r = "U"
+            elif e[0] == "assign" and e[1] == "=" and e[2] == ("id", x):
+                r = "R" if reads_var(e[3], x) else "A"
+            else:
+                r = "R" if reads_var(e, x) else "U"
+        elif k == "if":
+            c = s[1]
+            inner = c[2] if (c[0] == "un" and c[1] == "!") else (c[2] if c[0] == "bin" else c)
+            if isinstance(inner, tuple) and inner[0] == "assign" and inner[1] == "=" and inner[2] == ("id", x) \
+                    and not reads_var(inner[3], x) and not (c[0] == "bin" and reads_var(c[3], x)):
+                r = "A"
+            elif reads_var(c, x):
+                r = "R"
+            else:
+                branches = [(s[2], first_use([s[2]], x))] + ([(s[3], first_use([s[3]], x))] if s[3] else [(None, "U")])
+                if any(b == "R" for _, b in branches):
+                    r = "R"
+                else:
+                    through = [b for st, b in branches if not always_returns(st)]
+                    r = "A" if (not through or all(b == "A" for b in through)) else "U"
+        elif k == "while":
+            r = "R" if (reads_var(s[1], x) or first_use([s[2]], x) == "R") else "U"
+        else:
+            r = "U"
+        if r in ("A", "R"):
+            return r
+    return "U"
+
+
 def has_jump(s, kinds=("break", "continue")):
     """a `break` / `continue` that belongs to the enclosing loop"""
     if s is None:
@@ -602,7 +736,7 @@ def guard(c, ok):
     return None if ok is None else f"(!({c}) || {ok})"
 
 
-FAULT, MEM = "fault_", "m"
+FAULT, MEM, RET, NID, DEAD = "fault_", "m", "ret_", "nid", "dead_"
 
 
 # ---- emitter ---------------------------------------------------------------------------------------
@@ -613,6 +747,8 @@ class Emit:
         self.nn = {}            # lvalue key -> lean Bool text: "this pointer is not NULL"
         self.fault_used = False
         self.extras = []
+        self.alias = {}         # out-parameter -> the object variable `*out = obj` made it point to (an alias)
+        self.maydead = False    # a block may have been released earlier on this path: liveness is checked
         self.aux = []           # auxiliary definitions (loops), emitted in front of the function
         self.nloops = 0
 
@@ -640,6 +776,12 @@ class Emit:
     def E(self, e, env, want=None):
         """-> (lean text, type, ok) ; ok = None or a lean Bool that is false when evaluating e is undefined"""
         k = e[0]
+        if k == "num" and len(e) > 2:
+            # an unsigned literal (`0u`): it does not adapt; next to an `int` C converts the int to unsigned
+            # int (32 bit) - that is refused rather than translated
+            if want in ("int", "float", "ptr"):
+                raise TErr("an unsigned literal next to an operand that is not an unsigned 64-bit integer")
+            return str(e[1]), "ulit", None
         if k == "num":
             if want == "int":
                 return str(e[1]), "int", None
@@ -651,7 +793,9 @@ class Emit:
                 raise TErr("integer used as a pointer")
             return str(e[1]), ("nat" if want in ("nat", "bool", "stat") else "lit"), None
         if k == "null":
-            return "none", (want if isinstance(want, tuple) and want[0] == "fn" else "ptr"), None
+            if want == "nat" and self.cfg["tdefs"].get("__elem__"):
+                return "0", "nat", None          # the NULL element handle
+            return "none", (want if isinstance(want, tuple) and want[0] in ("fn", "cmp") else "ptr"), None
         if k == "boollit":
             return e[1], "bool", None
         if k == "id":
@@ -659,7 +803,7 @@ class Emit:
                 t = env[e[1]]
                 if isinstance(t, tuple) and t[0] == "out":
                     raise TErr(f"out-parameter `{e[1]}` used as a value")
-                if t in ("mem", "flag", "fuelt"):
+                if t in ("mem", "flag", "fuelt", "idt", "deadt"):
                     raise TErr(f"`{e[1]}` clashes with a name the translation uses")
                 return lean_ident(e[1]), t, None
             if e[1] in LIBC and isinstance(want, tuple) and want[0] == "fn":
@@ -678,13 +822,14 @@ class Emit:
                 raise TErr(f"`{e[2]}` is not a field of struct {bt[1]}")
             if e[1][0] == "id" and e[1][1] + "_nn" in env:
                 ok = conj(ok, lean_ident(e[1][1] + "_nn"))
+            ok = conj(ok, self.live(e[1], env))
             return f"{b}.{lean_ident(e[2])}", fs[e[2]], ok
         if k == "index":
             a, at, ok = self.E(e[1], env)
             if at != "arr":
                 raise TErr("indexing something that is not an array")
             i, ok2 = self.index(e[2], env, a)
-            return f"(Buf.get {a} {i})", "nat", conj(ok, ok2)
+            return f"(Buf.get {a} {i})", "nat", conj(conj(ok, self.live(e[1], env)), ok2)
         if k == "cast":
             t = mk_type(e[1], self.cfg["tdefs"], "cast", "cast")
             if t == "nat":
@@ -769,11 +914,41 @@ class Emit:
             raise TErr("sizeof of this type as a number")
         raise TErr(f"expression form `{k}`")
 
+    def id_of(self, e, env):
+        """lean text of the id of the block an object / array expression denotes, or None"""
+        if e[0] == "id":
+            t = env.get(e[1])
+            if isinstance(t, tuple) and t[0] in ("sp", "sv"):
+                return f"{lean_ident(e[1])}.id_" if self.structs[t[1]].get("has_id") else None
+            if t == "arr" and e[1] + "_id" in env:
+                return lean_ident(e[1] + "_id")
+            return None
+        if e[0] == "arrow" and e[1][0] in ("id", "arrow"):
+            try:
+                b, bt, _ = self.E(e[1], env)
+            except TErr:
+                return None
+            if isinstance(bt, tuple) and bt[0] in ("sp", "sv"):
+                ft = self.fields_of(bt).get(e[2])
+                if ft == "arr":
+                    return f"{b}.{lean_ident(e[2])}_id"
+                if isinstance(ft, tuple) and ft[0] == "sp" and self.structs[ft[1]].get("has_id"):
+                    return f"{b}.{lean_ident(e[2])}.id_"
+        return None
+
+    def live(self, e, env):
+        """ok-condition: the block of e has not been released earlier in this call (only in functions that
+        release blocks, directly or through a callee)"""
+        if DEAD not in env or not self.maydead:
+            return None
+        i = self.id_of(e, env)
+        return None if i is None else f"!(isDead {DEAD} {i})"
+
     def index(self, ie, env, arr):
         i, it, ok = self.E(ie, env, "nat")
         if it == "int":
             return f"(Int.toNat {i})", conj(ok, f"(decide (0 ≤ {i}) && decide (Int.toNat {i} < List.length {arr}))")
-        if it in ("nat", "lit"):
+        if it in ("nat", "lit", "ulit"):
             return i, conj(ok, f"decide ({i} < List.length {arr})")
         raise TErr("array index is not an integer")
 
@@ -788,6 +963,11 @@ class Emit:
         tb, tyb, okb = self.E(b, env, tya if tya != "lit" else None)
         if tya == "lit" and tyb != "lit":
             ta, tya, oka = self.E(a, env, tyb)
+        if "ulit" in (tya, tyb):
+            other = tyb if tya == "ulit" else tya
+            if other not in ("nat", "lit", "ulit"):
+                raise TErr("an unsigned literal next to an operand that is not an unsigned 64-bit integer")
+            tya = tyb = "nat"
         if tya == "lit" and tyb == "lit":
             tya = tyb = "nat"
         if tyb == "lit":
@@ -847,7 +1027,7 @@ class Emit:
         t, ty, ok = self.E(e, env)
         if ty == "bool":
             return t, ok
-        if ty in ("nat", "lit", "int", "stat"):
+        if ty in ("nat", "lit", "ulit", "int", "stat"):
             return f"decide ({t} ≠ 0)", ok
         if ty == "ptr" or (isinstance(ty, tuple) and ty[0] == "fn"):
             return f"decide ({t} ≠ none)", ok
@@ -857,6 +1037,8 @@ class Emit:
 
     def coerce(self, e, env, ty):
         t, got, ok = self.E(e, env, ty)
+        if got == "ulit":
+            got = "lit" if ty in ("nat", "bool") else "ulit"
         if got == "lit" and ty in ("nat", "stat"):
             got = ty
         if got == "nat" and ty == "stat" and e[0] == "id" and e[1] in self.consts:
@@ -881,6 +1063,14 @@ class Emit:
         out, ok = [s.lean], None
         for (pn, pt), a in zip(s.params, args):
             if isinstance(pt, tuple) and pt[0] == "sp":
+                if a[0] == "arrow" and a[1][0] == "id":
+                    # the object a pointer field of a variable points to (`stack->v`)
+                    t, ty, o = self.E(a, env)
+                    if ty != pt:
+                        raise TErr(f"argument `{pn}` of `{s.name}` is not a {pt[1]}")
+                    ok = conj(conj(ok, o), self.live(a, env))
+                    out.append(t)
+                    continue
                 v = a[2] if a[0] == "un" and a[1] == "&" else a
                 if v[0] != "id" or v[1] not in env:
                     raise TErr(f"argument `{pn}` of `{s.name}` is not a variable")
@@ -888,11 +1078,17 @@ class Emit:
                 good = (vt == pt and a[0] == "id") or (vt == ("sv", pt[1]) and a[0] == "un")
                 if not good:
                     raise TErr(f"argument `{pn}` of `{s.name}` is not a {pt[1]}")
+                if a[0] == "id" and a[1] + "_nn" in env:
+                    ok = conj(ok, lean_ident(a[1] + "_nn"))
+                ok = conj(ok, self.live(v, env))
                 out.append(lean_ident(v[1]))
             elif isinstance(pt, tuple) and pt[0] == "out":
-                if outs_to is None or a[0] != "id" or env.get(a[1]) != pt:
-                    raise TErr(f"out-argument `{pn}` of `{s.name}` is not the caller's own out-parameter")
-                outs_to[pn] = a[1]
+                if outs_to is not None and a[0] == "un" and a[1] == "&" and a[2][0] == "id" and env.get(a[2][1]) == pt[1]:
+                    outs_to[pn] = ("local", a[2][1])       # `&x` of a local: written only when the callee stores
+                elif outs_to is None or a[0] != "id" or env.get(a[1]) != pt:
+                    raise TErr(f"out-argument `{pn}` of `{s.name}` is neither the caller's own out-parameter nor `&local`")
+                else:
+                    outs_to[pn] = a[1]
             else:
                 t, o = self.coerce(a, env, pt)
                 ok = conj(ok, o)
@@ -901,10 +1097,15 @@ class Emit:
             if (n, ty) not in self.extras:
                 self.extras.append((n, ty))
             out.append(n)
-        if s.out_nn:
-            raise TErr(f"`{s.name}` tests an out-parameter for NULL; calls of it are not translated")
+        for n in s.out_nn:
+            a = dict(zip([pn for pn, _ in s.params], args))[n]
+            if a[0] != "id" or a[1] + "_nn" not in env:
+                raise TErr(f"`{s.name}` tests its out-parameter `{n}` for NULL; the argument is not an out-parameter of the caller")
+            out.append(lean_ident(a[1] + "_nn"))
         if s.mem:
             out.append(MEM)
+        if s.nid:
+            out.append(NID)
         if s.fuel:
             out.append(FUEL)
         return " ".join(out), ok
@@ -925,11 +1126,16 @@ class Emit:
         if self.sig.ret != "void":
             comps.append(retval)
         for n, _ in self.sig.outs:
-            comps.append(lean_ident(n))
+            # `*out = obj` stores a pointer: what the caller sees is the object as it is when the function returns
+            comps.append(f"(some {lean_ident(self.alias[n])})" if n in self.alias else lean_ident(n))
         for n in self.sig.mut:
             comps.append(lean_ident(n))
         if self.sig.mem:
             comps.append(MEM)
+        if self.sig.nid:
+            comps.append(NID)
+        if self.sig.frees:
+            comps.append(DEAD)
         if self.sig.faults:
             comps.append(FAULT)
         if not comps:
@@ -946,13 +1152,17 @@ class Emit:
         vs = [lean_ident(v) for v in k[1]]
         return vs[0] if len(vs) == 1 else "(" + ", ".join(vs) + ")"
 
-    def store(self, lhs, val_of, env):
-        """lines that perform `lhs = <value>`; val_of(type) gives (lean text, ok) of the value"""
+    def store(self, lhs, val_of, env, whole_array=False):
+        """lines that perform `lhs = <value>`; val_of(type) gives (lean text, ok) of the value;
+        whole_array: the contents of an array are replaced (memcpy/memmove), not the pointer"""
         if lhs[0] == "id":
             if lhs[1] not in env:
                 raise TErr(f"assignment to unknown `{lhs[1]}`")
             t = env[lhs[1]]
-            if isinstance(t, tuple) or t in ("mem", "flag"):
+            if t == "arr" and whole_array:
+                v, ok = val_of(t)
+                return self.chk(ok) + [f"let {lean_ident(lhs[1])} : List Nat := {v}"]
+            if isinstance(t, tuple) or t in ("mem", "flag", "arr", "fuelt"):
                 raise TErr(f"assignment to the pointer / object `{lhs[1]}` itself")
             v, ok = val_of(t)
             return self.chk(ok) + [f"let {lean_ident(lhs[1])} := {v}"]
@@ -967,8 +1177,17 @@ class Emit:
                 raise TErr(f"assignment to `{lhs[2]}`")
             if lhs[1][1] + "_nn" in env:
                 ok0 = conj(ok0, lean_ident(lhs[1][1] + "_nn"))
+            ok0 = conj(ok0, self.live(lhs[1], env))
             v, ok = val_of(fs[lhs[2]])
             return self.chk(conj(ok0, ok)) + [f"let {b} : {lean_ty(bt)} := {{ {b} with {lean_ident(lhs[2])} := {v} }}"]
+        if lhs[0] == "index" and lhs[1][0] == "id" and env.get(lhs[1][1]) == "arr":
+            d = lean_ident(lhs[1][1])
+            i, ok1 = self.index(lhs[2], env, d)
+            if lhs[1][1] + "_nn" in env:
+                ok1 = conj(ok1, lean_ident(lhs[1][1] + "_nn"))
+            ok1 = conj(ok1, self.live(lhs[1], env))
+            v, ok = val_of("nat")
+            return self.chk(conj(ok1, ok)) + [f"let {d} : List Nat := Buf.put {d} {i} {self.atom(v)}"]
         if lhs[0] == "index":
             a = lhs[1]
             if a[0] != "arrow" or a[1][0] != "id":
@@ -979,6 +1198,7 @@ class Emit:
                 raise TErr("array write to something that is not an array field")
             b, f = lean_ident(a[1][1]), lean_ident(a[2])
             i, ok1 = self.index(lhs[2], env, arr)
+            ok1 = conj(ok1, self.live(a, env))
             v, ok = val_of("nat")
             return self.chk(conj(ok0, conj(ok1, ok))) + [f"let {b} : {lean_ty(bt)} := {{ {b} with {f} := Buf.put {b}.{f} {i} {self.atom(v)} }}"]
         if lhs[0] == "un" and lhs[1] == "*" and lhs[2][0] == "id":
@@ -989,6 +1209,21 @@ class Emit:
                     ok = conj(ok, lean_ident(lhs[2][1] + "_nn"))
                 return self.chk(ok) + [f"let {lean_ident(lhs[2][1])} := some {self.atom(v)}"]
         raise TErr("assignment to something that is not a variable, a field, an array slot or `*out`")
+
+    def is_alias_store(self, e):
+        """`*out = obj` with `out` an out-parameter of object-pointer type"""
+        if e[0] == "assign" and e[1] == "=" and e[2][0] == "un" and e[2][1] == "*" and e[2][2][0] == "id":
+            return any(n == e[2][2][1] and isinstance(t, tuple) and t[0] == "sp" for n, t in self.sig.outs)
+        return False
+
+    def has_alias_store(self, s):
+        found = [False]
+
+        def visit(x):
+            if self.is_alias_store(x):
+                found[0] = True
+        walk_exprs(s, visit)
+        return found[0]
 
     def sibling_effect(self, e):
         s = self.sigs.get(e[1]) if e[0] == "call" else None
@@ -1010,13 +1245,27 @@ class Emit:
                 if bind is not None:
                     lines += self.store(bind, lambda ty, p=p: (self.expect(s.ret, ty, p), None), env)
             elif kind.startswith("out:"):
-                lines.append(f"let {lean_ident(outs_to[kind[4:]])} := {p}")
+                tgt = outs_to[kind[4:]]
+                if isinstance(tgt, tuple):
+                    if tgt[1] + "_nn" in env:      # a local object pointer: non-NULL once the callee stored one
+                        lines.append(f"let {lean_ident(tgt[1])}_nn := {lean_ident(tgt[1])}_nn || ({p}).isSome")
+                    lines.append(f"let {lean_ident(tgt[1])} := ({p}).getD {lean_ident(tgt[1])}")
+                else:
+                    lines.append(f"let {lean_ident(tgt)} := {p}")
             elif kind.startswith("state:"):
                 a = argof[kind[6:]]
-                v = a[2] if a[0] == "un" else a
-                lines.append(f"let {lean_ident(v[1])} := {p}")
+                if a[0] == "arrow":
+                    lines += self.store(a, lambda ty, p=p: (p, None), env)
+                else:
+                    v = a[2] if a[0] == "un" else a
+                    lines.append(f"let {lean_ident(v[1])} := {p}")
             elif kind == "mem":
                 lines.append(f"let {MEM} := {p}")
+            elif kind == "nid":
+                lines.append(f"let {NID} := {p}")
+            elif kind == "dead":
+                lines.append(f"let {DEAD} := {p} ++ {DEAD}")
+                self.maydead = True
             elif kind == "fault":
                 self.fault_used = True
                 if self.sig.faults:
@@ -1045,6 +1294,19 @@ class Emit:
         lines = self.chk(ok) + [f"let {a} := Mem.allocT {MEM} ({f}.getD Triple.conf)", f"let {MEM} := {a}.2"]
         return lines, f"{a}.1", role, args
 
+    def bump(self, flag):
+        """the block just obtained has the id `nid`; the supply advances when the allocation succeeded"""
+        return [f"let {NID} := if {flag} then {NID} + 1 else {NID}"]
+
+    def set_id(self, lhs, idtext, env):
+        """lines that record the block id of the array `lhs` now denotes"""
+        if lhs[0] == "id":
+            return [f"let {lean_ident(lhs[1])}_id := {idtext}"]
+        if lhs[0] == "arrow" and lhs[1][0] == "id":
+            b, bt, _ = self.E(lhs[1], env)
+            return [f"let {b} : {lean_ty(bt)} := {{ {b} with {lean_ident(lhs[2])}_id := {idtext} }}"]
+        raise TErr("an array pointer is stored in something that is neither a variable nor a field of a variable")
+
     def alloc_into(self, lhs, lty, e, env, declare=None):
         """lines for `lhs = p->mem_calloc(..)` / a declaration initialised with it"""
         lines, flag, role, args = self.alloc_lines(e, env)
@@ -1056,8 +1318,10 @@ class Emit:
                 raise TErr(f"an object of struct {lty[1]} must come from `mem_calloc(1, sizeof(<that struct>))`")
             if declare is None:
                 raise TErr("re-assignment of an object pointer")
-            return lines + [f"let {lean_ident(declare)} : {lean_ty(lty)} := {zero_of(lty)}",
-                            f"let {lean_ident(declare)}_nn := {flag}"]
+            if not self.structs[lty[1]].get("has_id"):
+                raise TErr(f"allocation of a struct {lty[1]} (only the container struct of a file is allocated)")
+            return lines + [f"let {lean_ident(declare)} : {lean_ty(lty)} := {{ {zero_of(lty)} with id_ := {NID} }}",
+                            f"let {lean_ident(declare)}_nn := {flag}"] + self.bump(flag)
         if lty == "arr":
             elem = (("void",), 1) if self.cfg["tdefs"].get("__elem__") else (("uint64_t",), 0)
             if role == "calloc" and len(args) == 2 and args[1] == ("sizeof", elem):
@@ -1074,11 +1338,35 @@ class Emit:
             val = f"(if {flag} then Buf.mk {ln} else [])"
             if declare is not None:
                 return lines + self.chk(ok) + [f"let {lean_ident(declare)} : List Nat := {val}",
-                                               f"let {lean_ident(declare)}_nn := {flag}"]
-            out = lines + self.chk(ok) + self.store(lhs, lambda ty: (val, None), env)
+                                               f"let {lean_ident(declare)}_nn := {flag}",
+                                               f"let {lean_ident(declare)}_id := {NID}"] + self.bump(flag)
+            out = lines + self.chk(ok) + self.store(lhs, lambda ty: (val, None), env) + self.set_id(lhs, NID, env) + self.bump(flag)
             self.nn[self.key(lhs)] = flag
             return out
         raise TErr("the result of an allocator call is stored in something that is neither an object nor an array")
+
+    def slot_ref(self, e, env):
+        """an argument of memcpy/memmove: `arr`, `&arr[i]` -> (array lvalue, lean array text, lean offset text, ok)"""
+        off, base = None, e
+        if e[0] == "un" and e[1] == "&" and e[2][0] == "index":
+            base, off = e[2][1], e[2][2]
+        ok_base = (base[0] == "id") or (base[0] == "arrow" and base[1][0] == "id")
+        if not ok_base:
+            raise TErr("memcpy/memmove on something that is not an array variable or an array field of a variable")
+        t, ty, ok = self.E(base, env)
+        if ty != "arr":
+            raise TErr("memcpy/memmove on something that is not an array")
+        if base[0] == "id" and base[1] + "_nn" in env:
+            ok = conj(ok, lean_ident(base[1] + "_nn"))
+        if self.key(base) in self.nn:
+            ok = conj(ok, self.nn[self.key(base)])
+        ok = conj(ok, self.live(base, env))
+        if off is None:
+            return base, t, "0", ok
+        o, ot, ok2 = self.E(off, env, "nat")
+        if ot not in ("nat", "lit"):
+            raise TErr("array offset is not an unsigned integer")
+        return base, t, self.atom(o), conj(ok, ok2)
 
     def effect(self, e, env):
         """lines for an expression statement"""
@@ -1094,7 +1382,17 @@ class Emit:
             # array pointer copies carry their NULL-ness
             if rhs[0] == "id" and rhs[1] + "_nn" in env and env.get(rhs[1]) == "arr":
                 self.nn[self.key(lhs)] = lean_ident(rhs[1] + "_nn")
-            return self.store(lhs, lambda ty: self.coerce(rhs, env, ty), env)
+            lines = self.store(lhs, lambda ty: self.coerce(rhs, env, ty), env)
+            if self.is_alias_store(e):
+                if rhs[0] != "id":
+                    raise TErr("`*out = <expression>` for an object pointer")
+                self.alias[lhs[2][1]] = rhs[1]
+            if self.ltype(lhs, env) == "arr":
+                rid = self.id_of(rhs, env)
+                if rid is None:
+                    raise TErr("an array pointer of unknown block identity is stored")
+                lines += self.set_id(lhs, rid, env)
+            return lines
         if k in ("pre", "post"):
             lhs = e[2]
             one = ("bin", "+" if e[1] == "++" else "-", lhs, ("num", 1))
@@ -1106,10 +1404,24 @@ class Emit:
             if len(args) != 1:
                 raise TErr("release function called with other than 1 argument")
             a = args[0]
-            at = env.get(a[1]) if a[0] == "id" else self.E(a, env)[1]
-            if not (at in ("arr", "ptr") or (isinstance(at, tuple) and at[0] == "sp")):
-                raise TErr("release of something that is not a block")
-            return self.chk(ok) + [f"let {MEM} := Mem.freeT {MEM} ({f}.getD Triple.conf)"]
+            if a[0] == "id":
+                at, oka = env.get(a[1]), None
+            else:
+                _, at, oka = self.E(a, env)
+            if not (at == "arr" or (isinstance(at, tuple) and at[0] == "sp")):
+                raise TErr("release of something that is not an object or an array of the container")
+            bid = self.id_of(a, env)
+            if bid is None:
+                raise TErr("release of a block of unknown identity")
+            nn = None
+            if a[0] == "id" and a[1] + "_nn" in env:
+                nn = lean_ident(a[1] + "_nn")      # releasing a possibly-NULL pointer is reported
+            elif self.key(a) in self.nn:
+                nn = self.nn[self.key(a)]
+            # the block must not have been released before (double free / wrong block)
+            ok = conj(conj(ok, oka), conj(nn, f"!(isDead {DEAD} {bid})" if self.maydead else None))
+            self.maydead = True
+            return self.chk(ok) + [f"let {DEAD} := {bid} :: {DEAD}", f"let {MEM} := Mem.freeT {MEM} ({f}.getD Triple.conf)"]
         if k == "call":
             if e[1] == "memset":
                 reg = self.memvar(env)
@@ -1123,22 +1435,26 @@ class Emit:
                 b = reg.split(".")[0]
                 ok = conj(conj(ok1, conj(ok2, ok3)), f"memsetOk {reg} {self.atom(p)} {self.atom(n)}")
                 return self.chk(ok) + [f"let {b} : {lean_ident(self.cfg['struct'])} := {{ {b} with {self.cfg['memory']} := memsetBytes {reg} {self.atom(p)} {self.atom(v)} {self.atom(n)} }}"]
-            if e[1] == "memcpy":
-                elem = (("void",), 1) if self.cfg["tdefs"].get("__elem__") else (("uint64_t",), 0)
+            if e[1] in ("memcpy", "memmove"):
                 a = e[2]
-                if len(a) != 3 or a[0][0] != "id" or env.get(a[0][1]) != "arr" or not (
-                        a[2][0] == "bin" and a[2][1] == "*" and a[2][3] == ("sizeof", elem)):
-                    raise TErr("memcpy other than `memcpy(<local array>, <array>, n * sizeof(elem))`")
-                src, st, ok1 = self.E(a[1], env)
-                if st != "arr":
-                    raise TErr("memcpy from something that is not an array")
-                n, ok2 = self.coerce(a[2][2], env, "nat")
-                d = lean_ident(a[0][1])
-                cnt = f"((wmul {self.atom(n)} 8) / 8)"
-                ok = conj(conj(ok1, ok2), f"(decide ({cnt} ≤ List.length {d}) && decide ({cnt} ≤ List.length {src}))")
-                if a[0][1] + "_nn" in env:
-                    ok = conj(ok, lean_ident(a[0][1] + "_nn"))
-                return self.chk(ok) + [f"let {d} : List Nat := Buf.memcpy {d} 0 {src} 0 {cnt}"]
+                if len(a) != 3:
+                    raise TErr(f"{e[1]} with other than 3 arguments")
+                dl, dtext, doff, okd = self.slot_ref(a[0], env)
+                _, stext, soff, oks = self.slot_ref(a[1], env)
+                nb, okn = self.coerce(a[2], env, "nat")
+                cnt = f"({nb} / 8)"          # a byte count; the slots are 8 bytes wide (LP64)
+                ok = conj(conj(okd, oks), conj(okn,
+                          f"(decide ({nb} % 8 = 0) && decide ({doff} + {cnt} ≤ List.length {dtext}) && decide ({soff} + {cnt} ≤ List.length {stext}))"))
+                if dtext == stext and e[1] == "memmove":
+                    val = f"Buf.memmove {dtext} {doff} {soff} {cnt}"
+                elif dtext == stext:
+                    # memcpy inside one block: the ranges must not overlap (undefined otherwise)
+                    ok = conj(ok, f"(decide ({doff} + {cnt} ≤ {soff}) || decide ({soff} + {cnt} ≤ {doff}))")
+                    val = f"Buf.memmove {dtext} {doff} {soff} {cnt}"
+                else:
+                    # different blocks (a memmove between different blocks is a memcpy)
+                    val = f"Buf.memcpy {dtext} {doff} {stext} {soff} {cnt}"
+                return self.chk(ok) + self.store(dl, lambda ty: (val, None), env, whole_array=True)
             if self.sibling_effect(e):
                 return self.do_call(e, env, None)
             _, _, ok = self.E(e, env)       # a pure call: type-check it, keep its checks
@@ -1160,8 +1476,11 @@ class Emit:
             if x[0] == "assign" or x[0] in ("pre", "post"):
                 acc.add(root_var(x[2]))
             elif x[0] == "call":
-                if x[1] == "memcpy" and x[2] and x[2][0][0] == "id":
-                    acc.add(x[2][0][1])
+                if x[1] in ("memcpy", "memmove") and x[2]:
+                    try:
+                        acc.add(root_var(x[2][0]))
+                    except TErr:
+                        pass
                 if x[1] == "memset":
                     reg = self.memvar(env)
                     if reg:
@@ -1198,7 +1517,8 @@ class Emit:
                 if init is not None:
                     raise TErr("struct value with an initialiser")
                 ex = (f"{self.sig.name}_{s[2]}_uninit", lean_ty(t))
-                self.extras.append(ex)
+                if ex not in self.extras:
+                    self.extras.append(ex)
                 lines = [f"let {x} : {lean_ty(t)} := {ex[0]}"]
             elif isinstance(t, tuple) and t[0] == "sp":
                 if init is not None and init[0] == "callp":
@@ -1208,8 +1528,13 @@ class Emit:
                     # placement: the object lives in caller-provided memory with arbitrary contents
                     p, ok = self.coerce(init[2], env, "ptr")
                     ex = (f"{self.sig.name}_{s[2]}_uninit", lean_ty(t))
-                    self.extras.append(ex)
+                    if ex not in self.extras:
+                        self.extras.append(ex)
                     lines = self.chk(ok) + [f"let {x} : {lean_ty(t)} := {ex[0]}", f"let {x}_nn := decide ({p} ≠ none)"]
+                    env[s[2] + "_nn"] = "flag"
+                elif init is None:
+                    # an object pointer that an out-argument of a call fills in later (`f(.., &p)`)
+                    lines = [f"let {x} : {lean_ty(t)} := {zero_of(t)}", f"let {x}_nn := false"]
                     env[s[2] + "_nn"] = "flag"
                 else:
                     raise TErr(f"object pointer `{s[2]}` is not initialised by an allocation or a placement cast")
@@ -1217,10 +1542,18 @@ class Emit:
                 if init is not None and init[0] == "callp":
                     lines = self.alloc_into(None, t, init, env, declare=s[2])
                     env[s[2] + "_nn"] = "flag"
+                    env[s[2] + "_id"] = "idt"
                 else:
                     raise TErr(f"array pointer `{s[2]}` is not initialised by an allocation")
-            elif init is None:
+            elif init is None and first_use(rest, s[2]) != "R":
+                # uninitialised, but assigned before it is read on every path: the initial value is never seen
                 lines = [f"let {x} : {lean_ty(t)} := {zero_of(t)}"]
+            elif init is None:
+                # an uninitialised local that may be read: its value is arbitrary, i.e. a parameter of the translation
+                ex = (f"{self.sig.name}_{s[2]}_uninit", lean_ty(t))
+                if ex not in self.extras:
+                    self.extras.append(ex)
+                lines = [f"let {x} : {lean_ty(t)} := {ex[0]}"]
             elif self.sibling_effect(init):
                 lines = [f"let {x} : {lean_ty(t)} := {zero_of(t)}"] + self.do_call(init, env, ("id", s[2]))
             else:
@@ -1231,13 +1564,26 @@ class Emit:
             return [pad + l for l in self.effect(s[1], env)] + self.seq(rest, env, k, ind)
         if kind == "while":
             return self.loop(s, rest, env, k, ind)
+        if kind == "kcall":
+            return [pad + s[1]]
         if kind in ("break", "continue"):
             if k[0] != "text":
                 raise TErr(f"`{kind}` outside a loop")
             return [pad + (k[2] if kind == "break" else k[1])]
+        if kind == "ret" and k[0] == "text":
+            if len(k) < 4 or RET not in k[3]:
+                raise TErr("internal: `return` inside a loop without a return slot")
+            if s[1] is None:
+                v, ok = "()", None
+            elif self.sig.ret == "void":
+                raise TErr("`return <value>;` in a void function")
+            elif self.sibling_effect(s[1]):
+                raise TErr("`return <call that modifies>` inside a loop")
+            else:
+                v, ok = self.coerce(s[1], env, self.sig.ret)
+            vals = [f"some {self.atom(v)}" if x == RET else lean_ident(x) for x in k[3]]
+            return [pad + l for l in self.chk(ok)] + [pad + (vals[0] if len(vals) == 1 else "(" + ", ".join(vals) + ")")]
         if kind == "ret":
-            if k[0] == "text":
-                raise TErr("`return` inside a loop")
             if k[0] != "fn":
                 raise TErr("internal: return inside a joined branch")
             if s[1] is None:
@@ -1260,6 +1606,8 @@ class Emit:
                 return self.seq([("expr", c), ("if", c[2], s1, s2)] + rest, env, k, ind)
             if c[0] == "un" and c[1] == "!" and c[2][0] == "assign":
                 return self.seq([("expr", c[2]), ("if", ("un", "!", c[2][2]), s1, s2)] + rest, env, k, ind)
+            if c[0] == "bin" and c[1] in gg.CMP and c[2][0] == "assign":
+                return self.seq([("expr", c[2]), ("if", ("bin", c[1], c[2][2], c[3]), s1, s2)] + rest, env, k, ind)
             ctext, cok = self.cond(c, env)
             head = [pad + l for l in self.chk(cok)]
             if has_jump(s1) or has_jump(s2):
@@ -1271,16 +1619,16 @@ class Emit:
                 b = self.seq(([s2] if s2 else []) + rest, dict(env), k, ind + 1)
                 self.nn = nn0
                 return head + [pad + f"if {ctext} then"] + a + [pad + "else"] + b
-            if has_return(s1) or has_return(s2):
-                if k[0] == "text":
-                    raise TErr("`return` inside a loop")
-                if k[0] != "fn":
+            if has_return(s1) or has_return(s2) or (k[0] == "fn" and (self.has_alias_store(s1) or (s2 and self.has_alias_store(s2)))):
+                if k[0] not in ("fn", "text"):
                     raise TErr("internal: return inside a joined branch")
-                nn0 = dict(self.nn)
+                nn0, al0, md0 = dict(self.nn), dict(self.alias), self.maydead
+                rest = self.share_continuation(s1, s2, rest, env, k)
                 a = self.seq([s1] + rest, dict(env), k, ind + 1)
-                self.nn = dict(nn0)
+                mda = self.maydead
+                self.nn, self.alias, self.maydead = dict(nn0), dict(al0), md0
                 b = self.seq(([s2] if s2 else []) + rest, dict(env), k, ind + 1)
-                self.nn = nn0
+                self.nn, self.alias, self.maydead = nn0, al0, (mda or self.maydead)
                 return head + [pad + f"if {ctext} then"] + a + [pad + "else"] + b
             acc = set()
             self.assigned(s1, env, acc)
@@ -1292,7 +1640,7 @@ class Emit:
             vs = [v for v in env if v in acc]
             # the ledger and the fault flag are joined when a branch touches them
             trial = self.seq([s1], dict(env), ("vars", ["_"]), 0) + (self.seq([s2], dict(env), ("vars", ["_"]), 0) if s2 else [])
-            for pseudo in (MEM, FAULT):
+            for pseudo in (MEM, NID, DEAD, FAULT):
                 if pseudo in env and any(re.match(rf"\s*let {pseudo} :=", l) for l in trial):
                     vs.append(pseudo)
             if not vs:
@@ -1312,6 +1660,45 @@ class Emit:
                     + self.seq(rest, env, k, ind))
         raise TErr(f"statement form `{kind}`")
 
+    def share_continuation(self, s1, s2, rest, env, k):
+        """`rest` follows an `if` with a `return` inside of which both branches may also fall through: instead
+        of translating `rest` twice it becomes the definition `<f>_k<n>`, called from both branches"""
+        if (k[0] != "fn" or not rest or self.sig.recursive or always_returns(s1) or (s2 is not None and always_returns(s2))
+                or (len(rest) == 1 and rest[0][0] in ("kcall", "ret"))):
+            return rest
+        # the branches must not change what is known about NULL-ness / aliases
+        nn0, al0, aux0, nl0, ex0 = dict(self.nn), dict(self.alias), list(self.aux), self.nloops, list(self.extras)
+        fu0, md0, lc0 = self.fault_used, self.maydead, dict(getattr(self, "loopcache", {}))
+        md = md0
+        try:
+            for br in (s1, s2):
+                if br is not None:
+                    self.maydead = md0
+                    self.seq([br, ("kcall", "_")], dict(env), k, 0)
+                    md = md or self.maydead
+                    if self.nn != nn0 or self.alias != al0:
+                        return rest
+                    self.nn, self.alias = dict(nn0), dict(al0)
+        finally:
+            self.nn, self.alias, self.aux, self.nloops, self.extras = dict(nn0), dict(al0), aux0, nl0, ex0
+            self.fault_used, self.maydead, self.loopcache = fu0, md0, lc0
+        self.maydead = md       # the shared part is reached with what either branch may have released
+        self.nconts = getattr(self, "nconts", 0) + 1
+        name = f"{self.sig.lean}_k{self.nconts}"
+        body = self.seq(rest, dict(env), k, 1)
+        words = set(re.findall(r"[A-Za-z_][\w']*", " ".join(body)))
+        vs = [v for v in env if lean_ident(v) in words]
+        exs = [(n, ty) for n, ty in self.extras if n in words]
+        comps = self.sig.components()
+        rty = " × ".join(t for _, t in comps) if comps else "Unit"
+        d = [f"/-- the part of `{self.sig.name}` behind its {'first second third fourth fifth'.split()[min(self.nconts, 5) - 1]} "
+             f"`if` that may either return or fall through (shared by both branches) -/",
+             f"def {name}" + "".join(f" ({lean_ident(v)} : {lean_ty(env[v])})" for v in vs)
+             + "".join(f" ({n} : {ty})" for n, ty in exs) + f" : {rty} :="] + body
+        self.aux.append(d)
+        self.maydead = md0
+        return [("kcall", " ".join([name] + [lean_ident(v) for v in vs] + [n for n, _ in exs]))]
+
     def loop(self, s, rest, env, k, ind):
         """`while (c) body` as a fuel-bounded recursive definition over the variables the body assigns"""
         pad = "  " * ind
@@ -1324,10 +1711,20 @@ class Emit:
         if unknown:
             raise TErr(f"assignment to unknown `{unknown[0]}`")
         vs = [v for v in env if v in acc]
-        if MEM in env:
-            trial = self.seq([body], dict(env), ("text", "_", "_"), 0)
-            if any(re.match(rf"\s*let {MEM} :=", l) for l in trial):
-                vs.append(MEM)
+        if MEM in env or DEAD in env:
+            trial = self.seq([body], dict(env), ("text", "_", "_", vs + [RET]), 0)
+            for pseudo in (MEM, NID, DEAD):
+                if pseudo in env and any(re.match(rf"\s*let {pseudo} :=", l) for l in trial):
+                    vs.append(pseudo)
+        early = has_return(body)
+        pre_lines = []
+        if early:
+            if k[0] != "fn":
+                raise TErr("a loop with a `return` nested in another loop or in a joined branch")
+            env = dict(env)
+            env[RET] = ("opt", self.sig.ret)
+            pre_lines = [pad + f"let {RET} : {lean_ty(env[RET])} := none"]
+            vs.append(RET)
         if FAULT in env:
             vs.append(FAULT)        # running out of fuel is reported as a fault
         self.fault_used = True
@@ -1339,35 +1736,45 @@ class Emit:
         names = [lean_ident(v) for v in vs]
         ctext, cok = self.cond(c, env)
         # the read-only variables the loop mentions become parameters of its definition
-        probe = " ".join(self.seq([body], dict(env), ("text", "_", "__exit__"), 0) + [ctext, cok or ""])
+        probe = " ".join(self.seq([body], dict(env), ("text", "_", "__exit__", vs), 0) + [ctext, cok or ""])
         words = set(re.findall(r"[A-Za-z_][\w']*", probe))
         ro = [v for v in env if v not in vs and v != FUEL and lean_ident(v) in words]
+        exs = [(n, ty) for n, ty in self.extras if n in words]
         key = (tuple(ro), tuple(vs), probe)
         if key in getattr(self, "loopcache", {}):
             name = self.loopcache[key]
-            call = " ".join([name] + [lean_ident(v) for v in ro] + [FUEL] + names)
+            call = " ".join([name] + [lean_ident(v) for v in ro] + [n for n, _ in exs] + [FUEL] + names)
             j = self.fresh(env, "j")
-            out = [pad + f"let {j} : {rty} := {call}"]
+            out = pre_lines + [pad + f"let {j} : {rty} := {call}"]
             out += [pad + f"let {n} := {proj(j, i, len(vs))}" for i, n in enumerate(names)]
-            return out + self.seq(rest, env, k, ind)
+            return out + self.after_loop(early, rest, env, k, ind)
         self.nloops += 1
         name = f"{self.sig.lean}_loop{self.nloops}"
         self.loopcache = dict(getattr(self, "loopcache", {}))
         self.loopcache[key] = name
-        call = " ".join([name] + [lean_ident(v) for v in ro] + [FUEL] + names)
-        inner = self.seq([body], dict(env), ("text", call, tup(names)), 3)
+        call = " ".join([name] + [lean_ident(v) for v in ro] + [n for n, _ in exs] + [FUEL] + names)
+        inner = self.seq([body], dict(env), ("text", call, tup(names), vs), 3)
         exhausted = tup([("true" if v == FAULT else lean_ident(v)) for v in vs])
         d = [f"/-- the {'first second third fourth fifth'.split()[min(self.nloops, 5) - 1]} loop of `{self.sig.name}`: `{FUEL}` bounds the number of iterations, running out of it is a fault -/",
-             f"def {name}" + "".join(f" ({lean_ident(v)} : {lean_ty(env[v])})" for v in ro) + f" : Nat → " + " → ".join(tys) + f" → {rty}",
+             f"def {name}" + "".join(f" ({lean_ident(v)} : {lean_ty(env[v])})" for v in ro)
+             + "".join(f" ({n} : {ty})" for n, ty in exs) + f" : Nat → " + " → ".join(tys) + f" → {rty}",
              f"  | 0, " + ", ".join(names) + f" => {exhausted}",
              f"  | {FUEL} + 1, " + ", ".join(names) + " =>"]
         d += ["    " + l for l in self.chk(cok)]
         d += [f"    if {ctext} then"] + inner + ["    else", "      " + tup(names)]
         self.aux.append(d)
         j = self.fresh(env, "j")
-        out = [pad + f"let {j} : {rty} := {call}"]
+        out = pre_lines + [pad + f"let {j} : {rty} := {call}"]
         out += [pad + f"let {n} := {proj(j, i, len(vs))}" for i, n in enumerate(names)]
-        return out + self.seq(rest, env, k, ind)
+        return out + self.after_loop(early, rest, env, k, ind)
+
+    def after_loop(self, early, rest, env, k, ind):
+        pad = "  " * ind
+        if not early:
+            return self.seq(rest, env, k, ind)
+        rv = None if self.sig.ret == "void" else f"({RET}.getD {zero_of(self.sig.ret)})"
+        return ([pad + f"if {RET}.isSome then", pad + "  " + self.result(rv, env), pad + "else"]
+                + self.seq(rest, env, k, ind + 1))
 
     @staticmethod
     def local_decls(s):
@@ -1515,6 +1922,8 @@ def parse_struct(txt, tag, cfg, tdefs, main):
                     raise TErr(f"array field `{name}` is not a `uint64_t *`")
             elif t == "arr":
                 raise TErr(f"field `{name}`: a pointer to uint64_t that is not declared an array of the container")
+            elif isinstance(t, tuple) and t[0] == "sp" and t[1] in REG["structs"]:
+                pass        # a pointer to an object of an already translated struct: the object is embedded
             elif t not in ("nat", "ptr", "int", "bool", "float"):
                 raise TErr(f"field `{name}` of this type")
             if name in fields:
@@ -1547,6 +1956,16 @@ def typedefs_of(repo, tags):
                 mm = re.match(r"\s*(\w+)\s*;", t[cb + 1:])
                 if mm and (tags is None or m.group(1) in tags):
                     out[mm.group(1)] = m.group(1)
+        # aliases: `typedef CC_ArrayConf CC_StackConf;`
+        changed = True
+        while changed:
+            changed = False
+            for p in sorted(inc.rglob("*.h")):
+                t = gg.strip_comments(p.read_text(errors="replace"))
+                for a, b in re.findall(r"\btypedef\s+(\w+)\s+(\w+)\s*;", t):
+                    if a in out and b not in out:
+                        out[b] = out[a]
+                        changed = True
     return out
 
 
@@ -1586,6 +2005,13 @@ def record_lines(tag, fields, cfg, main, f):
         lines.append(f"  {lean_ident(n)} : {lean_ty(t)}")
     if ghost:
         lines.append(f"  {ghost} : List Nat")
+    if main:
+        lines.append("  /-- ghost: the id of the allocator block the struct lives in -/")
+        lines.append("  id_ : Nat := 0")
+    for n, t in fields.items():
+        if t == "arr":
+            lines.append(f"  /-- ghost: the id of the allocator block `{n}` points to -/")
+            lines.append(f"  {lean_ident(n)}_id : Nat := 0")
     inits = [f"{lean_ident(n)} := {zero_of(t)}" for n, t in fields.items()] + ([f"{ghost} := []"] if ghost else [])
     lines.append(f"/-- a `struct {tag}` fresh from `calloc`: every field zero / NULL -/")
     lines.append(f"def {rec}.zero : {rec} := {{ " + ", ".join(inits) + " }")
@@ -1632,7 +2058,7 @@ def one_file(repo, cfg, consts):
                     body = " ".join(expand(tokenize(body), macros))
                     t = t[:m.end()] + body + t[cb:]
             return t
-        structs = {tag: dict(fields=parse_struct(stext(tag), tag, cfg, tdefs, True))}
+        structs = {tag: dict(fields=parse_struct(stext(tag), tag, cfg, tdefs, True), has_id=True)}
     except TErr as ex:
         problems.append(f"gen_funcs: struct {tag} ({f}): {ex}")
     except Exception as ex:
@@ -1646,6 +2072,9 @@ def one_file(repo, cfg, consts):
         return lines, problems
     # the other structs of the file (configuration records) are translated when they can be
     for t in tags[1:]:
+        if t in REG["structs"]:
+            structs[t] = dict(REG["structs"][t], external=True)
+            continue
         if t in tdefs.values():
             try:
                 structs[t] = dict(fields=parse_struct(stext(t), t, cfg, tdefs, False))
@@ -1656,10 +2085,11 @@ def one_file(repo, cfg, consts):
         if not t.startswith("__") and tdefs[t] not in structs:
             del tdefs[t]
     for t, d in structs.items():
-        lines += record_lines(t, d["fields"], cfg, t == tag, f)
+        if not d.get("external"):
+            lines += record_lines(t, d["fields"], cfg, t == tag, f)
 
     # pass 1: parse the table's functions and, transitively, the file-local helpers they call
-    sigs, order = {}, []
+    sigs, order = dict(REG["sigs"]), []
 
     def parse_fn(fn):
         ptxt, body = gg.find_function(txt, fn)
@@ -1734,9 +2164,22 @@ def one_file(repo, cfg, consts):
                 for n, t in s.params:
                     if t == ("sp", tag):
                         mut.add(n)
-            if x[0] == "callp" and x[1][0] == "arrow" and any(
-                    isinstance(d["fields"].get(x[1][2]), tuple) and d["fields"][x[1][2]][0] == "fn" for d in structs.values()):
-                mem[0] = True
+            if x[0] == "call" and x[1] in ("memcpy", "memmove") and x[2]:
+                try:
+                    r = root_var(x[2][0])
+                    if r in sp:
+                        mut.add(r)
+                except TErr:
+                    pass
+            if x[0] == "callp" and x[1][0] == "arrow":
+                roles = {d["fields"][x[1][2]][1] for d in structs.values()
+                         if isinstance(d["fields"].get(x[1][2]), tuple) and d["fields"][x[1][2]][0] == "fn"}
+                if roles:
+                    mem[0] = True
+                if roles & {"alloc", "calloc"}:
+                    s.nid = True
+                if "free" in roles:
+                    s.frees = True
         for st in s.body:
             walk_exprs(st, visit)
         return mut, mem[0]
@@ -1784,10 +2227,22 @@ def one_file(repo, cfg, consts):
                         s.mem = changed = True
                     if c.fuel and not s.fuel:
                         s.fuel = changed = True
+                    if c.nid and not s.nid:
+                        s.nid = changed = True
+                    if c.frees and not s.frees:
+                        s.frees = changed = True
                     for (pn, pt), a in zip(c.params, x[2]):
-                        if pn in c.mut and a[0] == "id" and a[1] in dict(s.params) and a[1] not in s.mut \
-                                and isinstance(dict(s.params)[a[1]], tuple) and dict(s.params)[a[1]][0] == "sp":
-                            s.mut = [n for n, _ in s.params if n in s.mut or n == a[1]]
+                        if pn in c.out_nn and a[0] == "id" and a[1] in [n for n, _ in s.outs] and a[1] not in s.out_nn:
+                            s.out_nn = [n for n, _ in s.outs if n in s.out_nn or n == a[1]]
+                            changed = True
+                    for (pn, pt), a in zip(c.params, x[2]):
+                        try:
+                            rv = root_var(a)
+                        except TErr:
+                            continue
+                        if pn in c.mut and a[0] in ("id", "arrow") and rv in dict(s.params) and rv not in s.mut \
+                                and isinstance(dict(s.params)[rv], tuple) and dict(s.params)[rv][0] == "sp":
+                            s.mut = [n for n, _ in s.params if n in s.mut or n == rv]
                             changed = True
             for st in s.body:
                 walk_exprs(st, visit)
@@ -1797,6 +2252,9 @@ def one_file(repo, cfg, consts):
 
     def emit(fn, stack):
         if fn in done:
+            return
+        if isinstance(sigs.get(fn), Sig) and sigs[fn].external:
+            done.add(fn)
             return
         if fn in stack:
             sigs[fn] = "recursion"
@@ -1820,13 +2278,17 @@ def one_file(repo, cfg, consts):
                     em = Emit(s, sigs, cfg, structs, consts)
                     env = {}
                     for n, t in s.params:
-                        if n in (FAULT, MEM) or n.endswith("_nn"):
+                        if n in (FAULT, MEM, NID, DEAD, RET) or n.endswith("_nn") or n.endswith("_id"):
                             raise TErr(f"parameter `{n}` clashes with a name the translation uses")
                         env[n] = t
                     for n in s.out_nn:
                         env[n + "_nn"] = "flag"
                     if s.mem:
                         env[MEM] = "mem"
+                    if s.nid:
+                        env[NID] = "idt"
+                    if s.frees:
+                        env[DEAD] = "deadt"
                     if s.fuel:
                         if FUEL in env:
                             raise TErr(f"parameter `{FUEL}` clashes with a name the translation uses")
@@ -1839,6 +2301,8 @@ def one_file(repo, cfg, consts):
                 s.extras = em.extras
                 ipad = "      " if s.recursive else "  "
                 pre = [f"{ipad}let {lean_ident(n)} : {lean_ty(('out', t))} := none" for n, t in s.outs]
+                if s.frees:
+                    pre.append(f"{ipad}let {DEAD} : List Nat := []")
                 if s.faults:
                     pre.append(f"{ipad}let {FAULT} : Bool := false")
                 comps = s.components()
@@ -1848,6 +2312,8 @@ def one_file(repo, cfg, consts):
                 args += "".join(f" ({lean_ident(n)}_nn : Bool)" for n in s.out_nn)
                 if s.mem:
                     args += f" ({MEM} : Mem)"
+                if s.nid:
+                    args += f" ({NID} : Nat)"
                 if s.fuel:
                     args += f" ({FUEL} : Nat)"
                 if s.recursive:
@@ -1858,7 +2324,7 @@ def one_file(repo, cfg, consts):
                             return "none"
                         if kd.startswith("state:"):
                             return lean_ident(kd[6:])
-                        return {"mem": MEM, "fault": "true"}[kd]
+                        return {"mem": MEM, "fault": "true", "nid": NID, "dead": "[]"}[kd]
                     ex = [exh(kd) for kd, _ in comps]
                     pre = [f"  match {FUEL} with", f"  | 0 => " + (ex[0] if len(ex) == 1 else "(" + ", ".join(ex) + ")"),
                            f"  | {FUEL} + 1 =>"] + pre
@@ -1871,7 +2337,8 @@ def one_file(repo, cfg, consts):
                         return f"`*{kd[4:]}`"
                     if kd.startswith("state:"):
                         return f"`*{kd[6:]}`"
-                    return {"mem": "the ledger", "fault": "`fault` (undefined behaviour happened)"}[kd]
+                    return {"mem": "the ledger", "fault": "`fault` (undefined behaviour happened)",
+                            "nid": "the supply of block ids", "dead": "the ids of the blocks it released"}[kd]
                 what = ", ".join(say(kd) for kd, _ in comps) or "nothing"
                 note = (f"; `{FUEL}` bounds the recursion depth / the loop iterations, running out of it is a fault" if s.fuel else "")
                 if s.helper and not s.fuel:
@@ -1901,59 +2368,17 @@ def one_file(repo, cfg, consts):
         emit(fn, [])
     for fn, text in emitted:
         lines += text
+    for t, d in structs.items():
+        if not d.get("external"):
+            REG["structs"][t] = dict(fields=d["fields"], has_id=d.get("has_id", False))
+    for fn in cfg["funcs"]:
+        if isinstance(sigs.get(fn), Sig) and not sigs[fn].external:
+            sigs[fn].external = True
+            REG["sigs"][fn] = sigs[fn]
     return lines, problems
 
 
-HEADER = """-- GENERATED by tools/gen_funcs.py from the current /repo sources. Do not edit.
-import CollectionsC.Base.Buf
-import CollectionsC.Base.Mem
-/-! Whole functions of the two smallest containers, translated from the C text statement by statement
-(see tools/gen_funcs.py for the rules, and for what is still ignored).  A struct is a record with all its
-fields; a function takes a record where the C function takes a struct pointer and returns (return value,
-out-parameters as `Option`, the struct parameters it may modify, the ledger `Mem` if it allocates,
-`fault`).  `fault` is true when the C execution would have had undefined behaviour (array index out of
-range, `/ 0`, `% 0`, `int` overflow, NULL / out-of-region pointer use, NULL function pointer).  Only 64-bit
-unsigned integers (`Nat`, wrapping at 2^64) and `int` are translated.  `Properties/C19Gen.lean` and
-`C12Gen.lean` prove that under the invariant each definition is fault-free and agrees with the model. -/
-set_option linter.unusedVariables false
-namespace CC.GenF
-/-- `a - b` on `size_t` (unsigned wrap-around; the convention of `Generated/Guards.lean`) -/
-def wsub (a b : Nat) : Nat := if b ≤ a then a - b else 2^64 + a - b
-/-- `a + b` on `size_t` -/
-def wadd (a b : Nat) : Nat := (a + b) % 2^64
-/-- `a * b` on `size_t` -/
-def wmul (a b : Nat) : Nat := (a * b) % 2^64
-/-- `(size_t) i` for an `int` (also the implicit conversion when an `int` meets a `size_t`) -/
-def castSizeT (i : Int) : Nat := (i % 2^64).toNat
-/-- the value is representable in `int` (otherwise the signed operation overflowed: undefined) -/
-def intOk (i : Int) : Bool := decide (-2^31 ≤ i ∧ i < 2^31)
-/-- a byte pointer: `none` is NULL, `some a` is the address `a` -/
-abbrev Ptr := Option Nat
-/-- `p + n` -/
-def padd : Ptr → Nat → Ptr
-  | some a, n => some (a + n)
-  | none, _ => none
-/-- `p + n` is defined: `p` is not NULL and the result is at most one past the end of the memory -/
-def paddOk : Ptr → Nat → Nat → Bool
-  | some a, n, len => decide (a + n ≤ len)
-  | none, _, _ => false
-/-- `p - q` as a `size_t` -/
-def pdiff : Ptr → Ptr → Nat
-  | some a, some b => wsub a b
-  | _, _ => 0
-/-- `p - q` is defined: neither is NULL -/
-def pdiffOk (p q : Ptr) : Bool := p.isSome && q.isSome
-/-- `memset(p, v, n)` on the memory -/
-def memsetBytes (bytes : List Nat) (p : Ptr) (v n : Nat) : List Nat :=
-  match p with
-  | some a => (List.range bytes.length).map fun j => if a ≤ j ∧ j < a + n then v else bytes.getD j 0
-  | none => bytes
-/-- `memset(p, _, n)` is defined: `p` is not NULL and `[p, p+n)` lies inside the memory -/
-def memsetOk (bytes : List Nat) (p : Ptr) (n : Nat) : Bool :=
-  match p with
-  | some a => decide (a + n ≤ bytes.length)
-  | none => false
-"""
+HEADER = None   # the prelude is the hand-written lean/CollectionsC/Base/GenPrelude.lean
 
 
 def all_constants(repo, constants_path):
@@ -1965,36 +2390,72 @@ def all_constants(repo, constants_path):
     return vals
 
 
-def generate(repo, constants_path=None):
+SUBHEADER = """-- GENERATED by tools/gen_funcs.py from the current /repo sources. Do not edit.
+import CollectionsC.Base.GenPrelude
+{imports}/-! Translated functions of `{files}` (see tools/gen_funcs.py for the rules and for what is still ignored; the
+arithmetic helpers `wadd`, `wsub`, … are those of the hand-written `Base/GenPrelude.lean`). -/
+set_option linter.unusedVariables false
+namespace CC.GenF
+"""
+
+
+def generate_all(repo, constants_path=None):
+    """-> ({module name: text}, problems)"""
     repo = str(repo)
     consts = all_constants(repo, constants_path or "/nonexistent")
-    lines, problems = [HEADER.rstrip("\n")], []
+    REG["structs"].clear()
+    REG["sigs"].clear()
+    parts, problems = {}, []
     for cfg in TABLE:
         try:
             l, p = one_file(repo, cfg, consts)
         except Exception as ex:      # never crash the build step
             l = [f"def {fn} : Unit := ()" for fn in cfg["funcs"]]
             p = [f"gen_funcs: {cfg['file']}: internal error {type(ex).__name__}: {ex}"]
-        lines += l
+        parts.setdefault(cfg["out"], []).append((cfg["file"], l))
         problems += p
-    lines.append("end CC.GenF")
-    return "\n".join(lines) + "\n", problems
+    out = {}
+    for mod, chunks in parts.items():
+        imps = sorted({i for c in TABLE if c["out"] == mod for i in c.get("imports", [])})
+        head = SUBHEADER.format(
+            files="`, `".join(f for f, _ in chunks),
+            imports="".join(f"import CollectionsC.Generated.{i}\n" for i in imps))
+        lines = [head.rstrip("\n")]
+        for _, l in chunks:
+            lines += l
+        lines.append("end CC.GenF")
+        out[mod] = "\n".join(lines) + "\n"
+    return out, problems
+
+
+def generate(repo, constants_path=None):
+    """all generated modules concatenated (kept for callers of the first interface)"""
+    out, problems = generate_all(repo, constants_path)
+    return "".join(out[m] for m in sorted(out)), problems
 
 
 def write(repo, path):
+    """path = .../Generated/Funcs.lean; the other generated modules are written next to it"""
     path = Path(path)
     try:
-        txt, problems = generate(repo, path.parent / "Constants.lean")
+        out, problems = generate_all(repo, path.parent / "Constants.lean")
     except Exception as ex:
         return [f"gen_funcs: internal error {type(ex).__name__}: {ex}"]
-    if not path.exists() or path.read_text() != txt:
-        path.write_text(txt)
+    for mod, txt in out.items():
+        q = path.parent / f"{mod}.lean"
+        if not q.exists() or q.read_text() != txt:
+            q.write_text(txt)
+    # one module per C file: the single module of the first versions is gone
+    for stale in path.parent.glob("Funcs*.lean"):
+        if stale.stem not in out:
+            stale.unlink()
     return problems
 
 
 if __name__ == "__main__":
     repo = sys.argv[1] if len(sys.argv) > 1 else "/repo"
-    txt, problems = generate(repo, Path(__file__).resolve().parent.parent / "lean" / "CollectionsC" / "Generated" / "Constants.lean")
-    print(txt)
+    out, problems = generate_all(repo, Path(__file__).resolve().parent.parent / "lean" / "CollectionsC" / "Generated" / "Constants.lean")
+    for mod in (sys.argv[2:] or out):
+        print(out[mod])
     for p in problems:
         print("PROBLEM:", p, file=sys.stderr)
